@@ -130,7 +130,8 @@ public:
         }
 
         if (m_maxFileSize > 0) {
-            const auto additionalSize = lmsg.formattedMessage().toUtf8().size() + 1; // +1 for newline
+            // The bytes IODeviceSink::send() is going to write: local 8-bit encoding + newline
+            const auto additionalSize = lmsg.formattedMessage().toLocal8Bit().size() + 1;
             checkSizeRotation(additionalSize);
         }
 
